@@ -3355,7 +3355,11 @@ impl IceCandidatePair {
             IceRole::Controlling => (g, d),
             IceRole::Controlled => (d, g),
         };
-        (1u64 << 32) * std::cmp::min(g, d) + 2 * std::cmp::max(g, d) + if g > d { 1 } else { 0 }
+        // Remote candidates carry an arbitrary 32-bit priority (RFC 8445 only allows up to
+        // 2^31 - 1); saturate instead of overflowing when both sides are near u32::MAX.
+        ((1u64 << 32) * std::cmp::min(g, d))
+            .saturating_add(2 * std::cmp::max(g, d))
+            .saturating_add(if g > d { 1 } else { 0 })
     }
 }
 
